@@ -83,7 +83,7 @@ func runC16(c C16Case, ev *Evid) (fs []Finding) {
 				add("setup", "%v", err)
 				return runResult{}, false
 			}
-			if c.DestMode == "perturbed" {
+			if c.DestMode == "perturbed" && df.Spec.L.String() == l.String() {
 				if err := modifyFile(filepath.Join(destBase, df.Dir, df.Name), c.Perturb, now); err != nil {
 					add("setup", "%v", err)
 					return runResult{}, false
@@ -436,7 +436,7 @@ func genC16(t *rapid.T) C16Case {
 	c.Cmd = rapid.SampledFrom([]string{"view", "view-raw", "diff", "copy", "sum", "sum-copy", "sum-diff", "generate"}).Draw(t, "cmd")
 	n := rapid.IntRange(1, 3).Draw(t, "files")
 	for i := 0; i < n; i++ {
-		c.Files = append(c.Files, TreeFile{Dir: "s1", Name: fmt.Sprintf("f%d.wsp", i+1), Spec: FileSpec{L: l, Writes: genWrites(t, l, now, valDyadic, 10)}})
+		c.Files = append(c.Files, TreeFile{Dir: "s1", Name: fmt.Sprintf("f%d.wsp", i+1), Spec: genSpec(t, l, now, valDyadic, 10)})
 	}
 	c.DestMode = rapid.SampledFrom([]string{"absent", "same", "perturbed"}).Draw(t, "destMode")
 	if c.DestMode == "perturbed" {
@@ -449,7 +449,28 @@ func genC16(t *rapid.T) C16Case {
 	case r < 6:
 		c.ArchiveID = rapid.SampledFrom([]int{len(l.Archives), len(l.Archives) + 1, -2, 100}).Draw(t, "badArchive")
 	}
-	c.Fault = rapid.SampledFrom([]string{"none", "none", "none", "textout-nodir", "textout-isdir", "textout-devfull", "missing-src", "corrupt-src", "corrupt-dest", "dest-notdir", "dest-proc", "dest-readonly", "layout-mismatch-dest"}).Draw(t, "fault")
+	c.Fault = rapid.SampledFrom([]string{"none", "none", "none", "textout-nodir", "textout-isdir", "textout-devfull", "missing-src", "corrupt-src", "corrupt-dest", "dest-notdir", "dest-proc", "dest-readonly", "layout-mismatch-dest", "layout-mismatch-src"}).Draw(t, "fault")
+	if c.Fault == "layout-mismatch-src" {
+		// one of the summed files has another layout (a longer last archive, one archive fewer, or one more)
+		if len(c.Files) < 2 {
+			c.Files = append(c.Files, TreeFile{Dir: "s1", Name: "f2.wsp"})
+		}
+		k := rapid.IntRange(0, len(c.Files)-1).Draw(t, "oddFile")
+		vl := subtleLayoutVariant(l)
+		c.Files[k].Spec = FileSpec{L: vl, Writes: genWrites(t, vl, now, valDyadic, 10)}
+		if k == 0 {
+			// (the case's reference layout is the first file's: keep it, give the variant to the others)
+			c.Files[0].Spec = genSpec(t, l, now, valDyadic, 10)
+			for j := 1; j < len(c.Files); j++ {
+				c.Files[j].Spec = FileSpec{L: vl, Writes: genWrites(t, vl, now, valDyadic, 10)}
+			}
+		}
+		for j := range c.Files {
+			if c.Files[j].Spec.L.Archives == nil {
+				c.Files[j].Spec = genSpec(t, l, now, valDyadic, 10)
+			}
+		}
+	}
 	if c.Fault == "corrupt-dest" && rapid.Bool().Draw(t, "methodOnly") {
 		c.Corrupt = []byte{0, 0, 0, byte(rapid.SampledFrom([]int{0, 7, 8, 9, 255}).Draw(t, "badMethod"))}
 	} else if c.Fault == "corrupt-src" || c.Fault == "corrupt-dest" {
@@ -477,7 +498,7 @@ func TestC16(t *testing.T) {
 	RunProperty(t, Property[C16Case]{
 		NoteCases:   true,
 		ID:          "C16",
-		Rule:        "rapid-generated invocations of all eight subcommands x archive selection (all / each id / out of range) x window (default, narrow, past, future, beyond the finest retention, degenerate) x copy-nan / header / sort / fill x destination absent / identical / perturbed x environment fault (none, text-out below a missing directory, text-out = a directory, text-out = /dev/full, source missing, source corrupt, destination base below a regular file, destination base under /proc, existing destination of another layout, read-only destination tree with the command run under the effective uid of 'nobody'), at a controlled clock. Each case runs a baseline (no text-out / destination fault) and, for those faults, the faulty run. Oracle: no panic escapes Execute; a nil return of the baseline implies the effect (view/sum: the expected point records; view-raw: all physical slots for the default range; copy/sum-copy: destination holds the source's / the sum's values; diff/sum-diff: no differing slot exists; generate: file with the requested header) and is impossible with an out-of-range archive id or a missing/corrupt source; the faulty run must fail when the text output cannot be opened, when a non-empty output cannot be written, or when the destination cannot be created. Non-trivial: a fault or a non-default selection/window is present. Distinct = hash of the case.",
+		Rule:        "rapid-generated invocations of all eight subcommands x archive selection (all / each id / out of range) x window (default, narrow, past, future, beyond the finest retention, degenerate) x copy-nan / header / sort / fill x destination absent / identical / perturbed x environment fault (none, text-out below a missing directory, text-out = a directory, text-out = /dev/full, source missing, source corrupt, destination base below a regular file, destination base under /proc, existing destination of another layout, a summed source file of another layout, read-only destination tree with the command run under the effective uid of 'nobody'), at a controlled clock. Each case runs a baseline (no text-out / destination fault) and, for those faults, the faulty run. Oracle: no panic escapes Execute; a nil return of the baseline implies the effect (view/sum: the expected point records; view-raw: all physical slots for the default range; copy/sum-copy: destination holds the source's / the sum's values; diff/sum-diff: no differing slot exists; generate: file with the requested header) and is impossible with an out-of-range archive id or a missing/corrupt source; the faulty run must fail when the text output cannot be opened, when a non-empty output cannot be written, or when the destination cannot be created. Non-trivial: a fault or a non-default selection/window is present. Distinct = hash of the case.",
 		Assumptions: []string{"checks run as root: permission faults are produced by ENOTDIR / EISDIR / /proc / /dev/full, and by temporarily switching the effective uid to 65534 for the read-only destination"},
 		Gen:         genC16,
 		Run:         runC16,
